@@ -743,6 +743,32 @@ class C10(ServerProp):
             h.drain(late)
             h.finish()
             out.append(self.mk(h, 0, {'kind': 'full-with-unanswered-dead-client', 'refused': refused, 'late': late}))
+        # a client that can no longer be written to (it shut down its read side) with pipelined requests answered one
+        # by one: no call fails, its slot is regained once everything is answered and it has gone
+        for _ in range(30 if tier == 'quick' else 1000):
+            h = Hist(rng)
+            cs = [h.connect() for _ in range(rng.choice([3, 10]))]
+            h.ops.append([11, 14])
+            z = rng.choice(cs)
+            h.request(z, pipelined=rng.choice([2, 3]), poll_between=False)
+            h.ops.append([11, 6])
+            h.ops.append([4, z])
+            for _ in range(3):
+                h.ops.append([12, 0])
+                h.ops.append([11, 4])
+                h.ops.append([6])
+            h.ops.append([2, z])
+            h.alive.remove(z)
+            h.ops.append([11, 6])
+            late = h.connect()
+            h.ops.append([11, 4])
+            h.request(late, poll_between=False)
+            h.ops.append([11, 4])
+            h.ops.append([12, 0])
+            h.ops.append([11, 4])
+            h.drain(late)
+            h.finish()
+            out.append(self.mk(h, 0, {'kind': 'unwritable-client-pipelined', 'late': late}))
         return out
 
     def oracle(self, cases, impl):
@@ -774,6 +800,11 @@ class C10(ServerProp):
                     v.append(self.viol(t, 'client %d (over capacity) receives exactly the 503 message and is disconnected' % c,
                                        repr(a['rx'].get(c))[:200] + ' ' + str(a['status'].get(c)), 'refusal'))
                     break
+            if 'late' in m and 'refused' not in m:
+                c = m['late']
+                if b'echo:/c%d/r0' % c not in a['rx'].get(c, b''):
+                    v.append(self.viol(t, 'capacity is regained once everything yielded from the departed client is answered: client %d is served' % c,
+                                       repr(a['rx'].get(c))[:160], 'regain'))
             if 'refused' in m:
                 c = m['refused']
                 if a['rx'].get(c) != SERVER_FULL or a['status'].get(c) != 'eof':
